@@ -91,6 +91,7 @@ fn thread_main(mut ctx: ThreadCtx) {
                 let cache_ref: &SyncCache = ctx.cache.as_ref().unwrap();
                 // SAFETY: see above; the iterator never outlives `ctx.cache`.
                 let cache_static: &'static SyncCache = unsafe { &*(cache_ref as *const SyncCache) };
+                crate::types::set_in_op(true);
                 catch_unwind(AssertUnwindSafe(|| match op {
                     Op::Insert { k, vid, w } => {
                         cache_ref.insert(K::tracked(*k, &ctx.reg), V::new(*vid, *w, &ctx.reg));
@@ -154,6 +155,7 @@ fn thread_main(mut ctx: ThreadCtx) {
                     Op::InvalidateIf { .. } => Res::Skipped,
                 }))
             };
+            crate::types::set_in_op(false);
             if *op == Op::DropHandle {
                 iter = None;
                 ctx.cache = None;
@@ -232,6 +234,10 @@ pub fn run_thr(trace: &Trace) -> (RunReport, Vec<u8>) {
     if let Some(n) = trace.callback_faults.weigh_panic_at {
         reg.arm_weigh_panic(n as i64);
     }
+    crate::types::arm_key_panics(
+        trace.callback_faults.hash_panic_at.map(|n| n as i64).unwrap_or(-1),
+        trace.callback_faults.eq_panic_at.map(|n| n as i64).unwrap_or(-1),
+    );
 
     // prologue (main thread, no scheduler)
     let mut vid_written: BTreeMap<u32, (u16, u32)> = BTreeMap::new(); // vid -> (key, raw weight)
@@ -309,6 +315,8 @@ pub fn run_thr(trace: &Trace) -> (RunReport, Vec<u8>) {
     // the harness's own calls below must not trip a still-armed callback fault
     reg.arm_clone_panic(-1);
     reg.arm_weigh_panic(-1);
+    let key_panics = crate::types::key_panics_injected();
+    crate::types::arm_key_panics(-1, -1);
     let srep = sched.report();
     rep.steps = srep.steps as u64;
     rep.ops = total_ops as u64;
@@ -324,8 +332,8 @@ pub fn run_thr(trace: &Trace) -> (RunReport, Vec<u8>) {
     rep.fault_injecting = trace.threads.iter().flatten().any(|o| o.f.any())
         || spec.starve.is_some()
         || trace.callback_faults != CallbackFaults::default();
-    rep.fault("callback_panic", reg.injected() as u64);
-    if reg.injected() > 0 {
+    rep.fault("callback_panic", reg.injected() as u64 + key_panics as u64);
+    if reg.injected() + key_panics > 0 {
         rep.flag("relaxed_after_callback_panic", 1);
     }
 
@@ -341,11 +349,14 @@ pub fn run_thr(trace: &Trace) -> (RunReport, Vec<u8>) {
 
     // ---- panics inside operations --------------------------------------------------------
     let mut injected = false;
+    // a callback that panics inside a maintenance run poisons the deques lock for every
+    // thread, also for operations that were invoked before the panicking one
+    let injected_any = hist.iter().any(|r| matches!(&r.res, Res::Panicked(m) if m.contains(INJECTED_PANIC)));
     for r in &hist {
         if let Res::Panicked(msg) = &r.res {
             if msg.contains(INJECTED_PANIC) {
                 injected = true;
-            } else if injected {
+            } else if injected || (injected_any && msg.contains("lock poisoned")) {
                 // attributed to the caller's own panicking callback
             } else {
                 rep.viol(
@@ -1955,10 +1966,16 @@ pub fn generate(pop: &str, seed: u64, run: u64) -> Option<Trace> {
         prologue,
         callback_faults: if pop == "thr-callback" {
             let mut cf = CallbackFaults::default();
-            if cfg_weigher && rng.chance(1, 2) {
-                cf.weigh_panic_at = Some(rng.below(total as u64 + 1) as u32);
-            } else {
-                cf.clone_panic_at = Some(rng.below(total as u64 + 1) as u32);
+            match rng.below(4) {
+                0 => cf.hash_panic_at = Some(rng.below(4 * total as u64 + 1) as u32),
+                1 => cf.eq_panic_at = Some(rng.below(3 * total as u64 + 1) as u32),
+                _ => {
+                    if cfg_weigher && rng.chance(1, 2) {
+                        cf.weigh_panic_at = Some(rng.below(total as u64 + 1) as u32);
+                    } else {
+                        cf.clone_panic_at = Some(rng.below(total as u64 + 1) as u32);
+                    }
+                }
             }
             cf
         } else {
